@@ -158,6 +158,8 @@ func runSelf(prop, repo, verif string) (int, string) {
 	return code, buf.String()
 }
 
+const alphaJob = "<alpha-renamed copy>"
+
 func selfValidate(prop, repo, verif string) []string {
 	var info []string
 	start := time.Now()
@@ -179,6 +181,8 @@ func selfValidate(prop, repo, verif string) []string {
 	for _, b := range benign {
 		jobs = append(jobs, job{b, false})
 	}
+	// α-renaming of every local identifier: behaviour-preserving by construction
+	jobs = append(jobs, job{alphaJob, false})
 	type out struct {
 		job
 		skipped string
@@ -200,7 +204,15 @@ func selfValidate(prop, repo, verif string) []string {
 				return
 			}
 			defer os.RemoveAll(dir)
-			if err := applyPatch(dir, j.patch); err != nil {
+			if j.patch == alphaJob {
+				self, _ := os.Executable()
+				cmd := exec.Command(self, "alpharename", "-dir", dir)
+				cmd.Env = append(os.Environ(), "GOFLAGS=-mod=mod", "GOPROXY=off", "GOSUMDB=off", "GOTOOLCHAIN=local", "GOWORK=off")
+				if o, err := cmd.CombinedOutput(); err != nil {
+					outs[i] = out{job: j, skipped: "alpharename failed: " + short(string(o), 200)}
+					return
+				}
+			} else if err := applyPatch(dir, j.patch); err != nil {
 				outs[i] = out{job: j, skipped: "does not apply to the current tree: " + err.Error()}
 				return
 			}
